@@ -568,6 +568,7 @@ def get_dos(epsilon, wk, spin=0, npts=500, width=0.1):
     emax = xp.max(energies) + 5 * width
     e = xp.linspace(emin, emax, npts)
     dos_e = xp.zeros(npts)
-    for e0, w in zip(energies, wk):
-        dos_e += w * delta(e, e0, width)
+    for ik in range(len(wk)):
+        for e0 in epsilon[ik, spin]:
+            dos_e += wk[ik] * delta(e, e0, width)
     return e, dos_e
